@@ -985,3 +985,67 @@ def vec_into_iter_next(ctx):
         return mk_option(ex, None)
     ex.store(st, r.cell, r.path, it.with_field(1, Int(BV(pos + 1, 64), 64, False)))
     return mk_option(ex, seq.items[pos])
+
+
+# --------------------------------------------------------------------------- LinkedList (explicit small lists), mem::swap
+
+@contract(r'^LinkedList::<.*>::push_front$')
+def linkedlist_push_front(ctx):
+    ex, st = ctx.ex, ctx.st
+    v, loc = seq_loc(ex, st, ctx.args[0])
+    if isinstance(v, SeqV) and v.items is not None:
+        ex.store(st, loc[0], loc[1], SeqV.from_items([ctx.args[1]] + v.items, v.elem_ty, v.kind))
+        return UNIT
+    return NotImplemented
+
+
+@contract(r'^LinkedList::<.*>::push_back$')
+def linkedlist_push_back(ctx):
+    ex, st = ctx.ex, ctx.st
+    v, loc = seq_loc(ex, st, ctx.args[0])
+    if isinstance(v, SeqV) and v.items is not None:
+        ex.store(st, loc[0], loc[1], SeqV.from_items(v.items + [ctx.args[1]], v.elem_ty, v.kind))
+        return UNIT
+    return NotImplemented
+
+
+@contract(r'^LinkedList::<.*>::pop_back$|^Vec::<(?!u8>).*>::pop$')
+def linkedlist_pop_back(ctx):
+    ex, st = ctx.ex, ctx.st
+    v, loc = seq_loc(ex, st, ctx.args[0])
+    if isinstance(v, SeqV) and v.items is not None:
+        if not v.items:
+            return mk_option(ex, None)
+        ex.store(st, loc[0], loc[1], SeqV.from_items(v.items[:-1], v.elem_ty, v.kind))
+        return mk_option(ex, v.items[-1])
+    return NotImplemented
+
+
+@contract(r'^LinkedList::<.*>::pop_front$')
+def linkedlist_pop_front(ctx):
+    ex, st = ctx.ex, ctx.st
+    v, loc = seq_loc(ex, st, ctx.args[0])
+    if isinstance(v, SeqV) and v.items is not None:
+        if not v.items:
+            return mk_option(ex, None)
+        ex.store(st, loc[0], loc[1], SeqV.from_items(v.items[1:], v.elem_ty, v.kind))
+        return mk_option(ex, v.items[0])
+    return NotImplemented
+
+
+@contract(r'^LinkedList::<.*>::len$')
+def linkedlist_len(ctx):
+    v, _ = seq_loc(ctx.ex, ctx.st, ctx.args[0])
+    if isinstance(v, SeqV):
+        return Int(v.len, 64, False)
+    return NotImplemented
+
+
+@contract(r'^std::mem::swap::<.*>$|^core::mem::swap::<.*>$')
+def mem_swap(ctx):
+    ex, st = ctx.ex, ctx.st
+    a, b = ctx.args
+    va, vb = ex.load(st, a.cell, a.path), ex.load(st, b.cell, b.path)
+    ex.store(st, a.cell, a.path, vb)
+    ex.store(st, b.cell, b.path, va)
+    return UNIT
